@@ -389,10 +389,10 @@ def _perp(axis):
     return [x / n for x in v]
 
 
-def gen_shape_program(rs: Stream, cfg_seed: int) -> Dict[str, Any]:
+def gen_shape_program(rs: Stream, cfg_seed: int, kinds=None) -> Dict[str, Any]:
     """Realistic curved topologies built by the library's own shapes; the reference model
     judges them from the operations' points and chops read before assembly."""
-    kind = rs.pick(["cylinder", "frustum", "ring", "hemisphere", "cyl_cyl", "cyl_ring", "cyl_hemi", "cyl_frustum", "ring_ring", "tjoint", "ljoint", "stack", "tstack", "tstack", "tstack"])
+    kind = rs.pick(kinds or ["cylinder", "frustum", "ring", "hemisphere", "cyl_cyl", "cyl_ring", "cyl_hemi", "cyl_frustum", "ring_ring", "tjoint", "ljoint", "stack", "tstack", "tstack", "tstack"])
     o = [round(rs.uniform(-3, 3), 3) for _ in range(3)]
     ax = [rs.uniform(-1, 1) for _ in range(3)]
     n = math.sqrt(sum(x * x for x in ax)) or 1.0
@@ -425,7 +425,9 @@ def gen_shape_program(rs: Stream, cfg_seed: int) -> Dict[str, Any]:
             ops.append({"op": "sub_chop", "target": "s0", "index": j, "axis": 0, "args": {"count": 4}})
             ops.append({"op": "sub_chop", "target": "s0", "index": j, "axis": 1, "args": {"count": 3}})
         args = rs.pick([{"start_size": round(rs.uniform(0.1, 0.3), 3)}, {"count": rs.randint(2, 6)}, {"end_size": round(rs.uniform(0.1, 0.3), 3)},
-                        {"start_size": round(rs.uniform(0.1, 0.2), 3), "c2c_expansion": 1.1}])
+                        {"start_size": round(rs.uniform(0.1, 0.2), 3), "c2c_expansion": 1.1},
+                        {"count": rs.randint(3, 8), "c2c_expansion": rs.pick([1.1, 1.2, 0.9]), "preserve": rs.pick(["start_size", "end_size"])},
+                        {"count": rs.randint(3, 8), "total_expansion": rs.pick([2.0, 0.5, 3.0]), "preserve": rs.pick(["start_size", "end_size"])}])
         ops.append({"op": "stack_chop", "target": "s0", "args": args})
         ops.append({"op": "add", "target": "s0"})
         ops.append({"op": "assemble"})
@@ -955,6 +957,22 @@ def assembly_from_snapshot(snap) -> Tuple[models.Assembly, List[str]]:
         blocks.append(models.RefBlock(label, ids[k:k + 8], chops))
         k += 8
     return models.Assembly(blocks), [b.name for b in blocks]
+
+
+def hex_program_from_snapshot(snap) -> Dict[str, Any]:
+    """the hex-only program equivalent to a shape-built assembly whose edges are all straight (ids from the same
+    clustering as assembly_from_snapshot): lets the cell-size oracle judge stacks, shells, connectors, ..."""
+    allpos = []
+    for (_, pts, _) in snap:
+        allpos += pts
+    ids = models.cluster_points(allpos, tol=1e-6)
+    points: Dict[Any, List[float]] = {}
+    for i, pos in zip(ids, allpos):
+        points.setdefault(i, list(pos))
+    ops = []
+    for k, (label, _, _) in enumerate(snap):
+        ops.append({"op": "hex", "name": label, "corners": ids[8 * k:8 * k + 8]})
+    return {"points": points, "ops": ops, "meta": {}}
 
 
 def snapshot_live(mesh) -> Dict[str, Any]:
